@@ -168,7 +168,7 @@ prop("C12", "exploration", HIST_RULE + "; C12 monitors: M-nonce records the publ
      ["secrets are searched in the listed encodings only; a leak in another encoding would be missed",
       "the recipient's never-persisted context cannot be compared; XOR-masked stored values are not plaintext",
       "interruptions are process death / failing calls, not power loss"],
-     required_hist=["nonces-recorded", "secrets:contexts-searched", "secrets:haystacks-searched", "wrong-password-refused", "independent-decrypt-agrees", "interrupted:change_password:recoverable", "interrupted:recover:recoverable"])
+     required_hist=["nonces-recorded", "secrets:contexts-searched", "secrets:haystacks-searched", "wrong-password-refused", "independent-decrypt-agrees", "interrupted:change_password:recoverable", "interrupted:recover:recoverable", "second-reply-after-finalization:Invoice:refused", "second-reply-after-finalization:Send:refused"])
 
 prop("C17", "exploration",
      "sweep over protocol step (receive_tx, finalize_tx, process_invoice_tx, foreign finalize of an invoice) x cutoff - observed height in -3..+3 plus "
